@@ -21,7 +21,7 @@ in with_timeout's timeout callback - each reported as VIOLATION by the S2C repla
 """
 import random
 
-from harness import framework
+from harness import framework, futures_gen
 from harness.framework import canon
 from harness.futures_driver import CombReal
 
@@ -152,19 +152,25 @@ def run(ctx):
            required_actions=["Resolve", "Create", "NextCall", "Advance", "CancelOut"],
            timeout=ctx.pick(600, 1800))
     # 2. spec -> code: every complete behaviour
-    paths = ctx.gen_paths("futures", "Gen_Combinators", "Gen_Combinators.cfg",
-                          overrides=ctx.pick({"NF": 3, "MaxSlots": 3, "Deadlines": "{0, 1}", "MaxAdvance": 1},
-                                             {"NF": 3, "MaxSlots": 3}),
-                          timeout=ctx.pick(600, 1800))
-    ctx.replay(paths, replayer, nontrivial=lambda e, p: len(p) >= 2)
-    if not ctx.quick:
-        # four distinct inputs (no duplicates) for the list-shaped combinators
-        paths4 = ctx.gen_paths("futures", "Gen_Combinators", "Gen_Combinators.cfg",
-                               overrides={"NF": 4, "MaxSlots": 4, "Dups": "FALSE", "Deadlines": "{1}", "MaxAdvance": 1,
-                                          "Combs": '{"multi", "wait", "tmulti"}', "BPre": '{"none"}'},
-                               timeout=1800)
-        paths4 = [ep for ep in paths4 if len(ep[0]["cfg"]["slots"]) == 4]
-        ctx.replay(paths4, replayer, label="s2c-4")
+    LISTS = '{"multi", "multid", "wait", "waitkw"}'
+    TIMED = '{"timeout", "tmulti", "chain"}'
+    if ctx.quick:
+        runs = [{"Combs": '{"multi", "multid", "wait"}', "NF": 3, "MaxSlots": 3, "BPre": '{"none"}'},
+                {"Combs": '{"waitkw", "timeout", "tmulti", "chain"}', "NF": 2, "MaxSlots": 2}]
+    else:
+        runs = [{"Combs": LISTS, "NF": 3, "MaxSlots": 3, "BPre": '{"none"}'},
+                {"Combs": TIMED, "NF": 3, "MaxSlots": 3, "Deadlines": "{0, 1, 2, 3}", "MaxAdvance": 3},
+                # four distinct inputs (no duplicates) for the list-shaped combinators
+                {"Combs": '{"multi", "wait", "tmulti"}', "NF": 4, "MaxSlots": 4, "Dups": "FALSE", "Deadlines": "{1}",
+                 "MaxAdvance": 1, "BPre": '{"none"}', "_only4": True}]
+    for ov in runs:
+        ov = dict(ov)
+        only4 = ov.pop("_only4", False)
+        paths = futures_gen.gen_paths(ctx, "futures", "Gen_Combinators", "Gen_Combinators.cfg", overrides=ov,
+                                      timeout=ctx.pick(600, 1800))
+        if only4:
+            paths = [ep for ep in paths if len(ep[0]["cfg"]["slots"]) == 4]
+        ctx.replay(paths, replayer, nontrivial=lambda e, p: len(p) >= 2)
     ctx.cov["exhaustive"] = True
     # 3. code -> spec
     n = ctx.pick(400, 10000)
